@@ -38,7 +38,6 @@ func runC10(c *Ctx) {
 	rulePayloadStores(c, "R10.j")
 	ruleIsNilMeansNull(c, "R10.j")
 	ruleRecycledObjectsReset(c, "R10.p")
-	ruleValueRejections(c, "R10.q")
 	c.assume("surplus trailing arguments are ignored by most executors (the property speaks of lacking/ill-formed arguments)")
 }
 
